@@ -1,6 +1,7 @@
 package callbacks
 
 import (
+	"fmt"
 	"reflect"
 	"strings"
 
@@ -73,7 +74,11 @@ func SaveBeforeAssociations(create bool) func(db *gorm.DB) {
 								}
 							}
 							cacheKey := utils.ToStringKey(relPrimaryValues...)
-							if len(relPrimaryValues) != len(rel.FieldSchema.PrimaryFields) || !identityMap[cacheKey] {
+							if len(relPrimaryValues) != len(rel.FieldSchema.PrimaryFields) {
+								// no primary key yet: the same in-memory value shared by several owners is saved once
+								cacheKey = fmt.Sprintf("&%p", rv.Interface())
+							}
+							if cacheKey == "" || !identityMap[cacheKey] {
 								if cacheKey != "" { // has primary fields
 									identityMap[cacheKey] = true
 								}
@@ -311,7 +316,11 @@ func SaveAfterAssociations(create bool) func(db *gorm.DB) {
 							}
 
 							cacheKey := utils.ToStringKey(relPrimaryValues...)
-							if len(relPrimaryValues) != len(rel.FieldSchema.PrimaryFields) || !identityMap[cacheKey] {
+							if len(relPrimaryValues) != len(rel.FieldSchema.PrimaryFields) {
+								// no primary key yet: the same in-memory value shared by several owners is saved once
+								cacheKey = fmt.Sprintf("&%p", elem.Interface())
+							}
+							if cacheKey == "" || !identityMap[cacheKey] {
 								if cacheKey != "" { // has primary fields
 									identityMap[cacheKey] = true
 								}
